@@ -88,6 +88,15 @@ CHECKS = {
         "technique": SIM + "crash-point style injection of close at arbitrary event indices, trace/callback oracle",
         "design_ref": "DESIGN.md §5 C17",
     },
+    "C09": {
+        "text": "Seeded search over the arrival time of a conflicting PTR relative to the three probe instants (scripted "
+                "owner answering probes after 0..150 ms by multicast/unicast, spontaneous announcements at +-1 ms of a probe "
+                "instant, pre-loaded and expired-but-unpurged records, goodbyes, chains of taken -N names, a real second "
+                "instance as owner) with allow_name_change on/off; the registrant's probe/announcement schedule and "
+                "packet contents, the API outcome and the final name are judged against the per-host reference cache.",
+        "technique": SIM + "interval oracle on probe/announcement times, conflict-presence timeline from delivered traffic",
+        "design_ref": "DESIGN.md §5 C09",
+    },
     "C05": {
         "text": "Seeded search over response-datagram histories (repeats, refreshes, goodbyes, cache-flush, re-cased names) "
                 "and clock steps around the 1 s flush window, TTL expiry and the 10 s purge, driven through the real "
